@@ -71,8 +71,85 @@ func slowWriterCase(size int, stall time.Duration) slowWriterObs {
 	return o
 }
 
+// the same with the peer draining slowly instead of not at all, and the server's pinger running: a large response that
+// takes many ping intervals to leave must still arrive whole, and the connection must stay usable
+type slowDrainObs struct {
+	Size      int    `json:"size"`
+	PingMs    int64  `json:"server_ping_ms"`
+	RateMBs   int    `json:"drain_mb_per_s"`
+	Got       int    `json:"bytes_received"`
+	BigOK     bool   `json:"big_ok"`
+	FollowOK  bool   `json:"follow_up_ok"`
+	Err       string `json:"err,omitempty"`
+	SlowDrain bool   `json:"slow_drain"`
+	Oracle    string `json:"oracle_fail,omitempty"`
+}
+
+func slowDrainCase(size int, ping time.Duration, rateMBs int) slowDrainObs {
+	o := slowDrainObs{Size: size, PingMs: ping.Milliseconds(), RateMBs: rateMBs, SlowDrain: true}
+	srv := jsonrpc.NewServer(jsonrpc.WithServerPingInterval(ping))
+	srv.Register("W", &wHandler{})
+	ts := httptest.NewServer(srv)
+	defer ts.Close()
+	conn, _, err := websocket.DefaultDialer.Dial("ws"+strings.TrimPrefix(ts.URL, "http"), nil)
+	if err != nil {
+		o.Oracle = "dial failed: " + err.Error()
+		return o
+	}
+	defer conn.Close()
+	_ = conn.WriteMessage(websocket.TextMessage, []byte(fmt.Sprintf(`{"jsonrpc":"2.0","id":1,"method":"W.Big","params":[1,%d]}`, size)))
+	_ = conn.SetReadDeadline(time.Now().Add(40 * time.Second))
+	readOne := func(throttle bool) ([]byte, error) {
+		_, r, err := conn.NextReader()
+		if err != nil {
+			return nil, err
+		}
+		var buf []byte
+		chunk := make([]byte, 256<<10)
+		for {
+			n, err := r.Read(chunk)
+			buf = append(buf, chunk[:n]...)
+			if throttle && n > 0 {
+				time.Sleep(time.Duration(n) * time.Second / time.Duration(rateMBs<<20))
+			}
+			if err != nil {
+				if err.Error() == "EOF" {
+					return buf, nil
+				}
+				return buf, err
+			}
+		}
+	}
+	msg, err := readOne(true)
+	o.Got = len(msg)
+	if err != nil {
+		o.Err = err.Error()
+	}
+	var r struct {
+		ID     float64         `json:"id"`
+		Result json.RawMessage `json:"result"`
+	}
+	if err == nil && json.Unmarshal(msg, &r) == nil && r.ID == 1 {
+		var s string
+		o.BigOK = json.Unmarshal(r.Result, &s) == nil && len(s) == size+2
+	}
+	if o.BigOK {
+		_ = conn.WriteMessage(websocket.TextMessage, []byte(`{"jsonrpc":"2.0","id":2,"method":"W.Echo","params":[2]}`))
+		m2, err2 := readOne(false)
+		o.FollowOK = err2 == nil && strings.Contains(string(m2), `"result":2`)
+		if err2 != nil {
+			o.Err = err2.Error()
+		}
+	}
+	if !(o.BigOK && o.FollowOK) {
+		o.Oracle = fmt.Sprintf("a response of %d bytes drained at %d MB/s with the server pinging every %v: %d bytes arrived (intact: %v), a small call afterwards on the same connection succeeded: %v, read error %q", size, rateMBs, ping, o.Got, o.BigOK, o.FollowOK, o.Err)
+	}
+	return o
+}
+
 func init() {
 	families["slow-writer"] = func(seed uint64, tier string, args []string) {
+		emit(slowDrainCase(16<<20, 150*time.Millisecond, 8))
 		emit(slowWriterCase(40<<20, 6200*time.Millisecond))
 		if tier == "thorough" {
 			emit(slowWriterCase(64<<20, 11*time.Second))
